@@ -101,7 +101,8 @@ def isConst : Expo → Bool
   | .const _ => true
   | _ => false
 
-def rowExpos (r : Row) : List Expo := r.leaves.flatMap fun l => l.expo.map (·.2)
+def rowExpos (r : Row) : List Expo :=
+  (r.leaves.flatMap fun l => l.expo.map (·.2)) ++ ((r.outLabel.getD []).map (·.2))
 
 def staticsMatch (statics : List (String × Expo)) (rows : List Row) : Bool :=
   (statics.all fun (f, e) =>
